@@ -323,8 +323,12 @@ class RedshiftBinningFactory:
             dist = self.cosmology.comoving_distance(z)
             return dist if isinstance(dist, units.Quantity) else dist * units.Mpc
 
-        edges = z_at_value(comoving_distance, comov_edges).value
-        edges[0], edges[-1] = min, max  # exact, not just to solver tolerance
+        # the outer edges are known exactly, only the inner ones need the solver
+        # (which fails at its lower bracket for min = 0)
+        edges = np.empty(num_bins + 1)
+        edges[0], edges[-1] = min, max
+        if num_bins > 1:
+            edges[1:-1] = z_at_value(comoving_distance, comov_edges[1:-1]).value
         return Binning(edges, closed=closed)
 
     def logspace(
